@@ -89,7 +89,10 @@ func (man *chunkManager) OnChunkConsumed(chunk base.LogChunk) {
 
 func (man *chunkManager) OnChunkLeftover(chunk base.LogChunk) {
 	man.logger.Debugf("save leftover id=%s len=%d", chunk.ID, len(chunk.Data))
-	man.operator.UnloadChunk(&chunk)
+	if !man.UnloadOrDropChunk(&chunk) {
+		// not saved (space limit, I/O error or no queue dir): the chunk is lost and must be counted as dropped
+		return
+	}
 	man.metrics.pendingChunks.Dec()
 	man.metrics.leftoverChunksTotal.Inc()
 }
